@@ -17,6 +17,8 @@
 //!      f(args)  (user closure)      ->  f(args)?                       (param `impl Fn*(..) -> R` becomes `-> VR<R>`)
 //!  R3  it.for_each(|x| body)        ->  it.try_for_each(|x| -> VR<()> { body'; Ok(()) })?   if body' is fallible
 //!  R5  assert!(c, ..)               ->  if !(c) { return Err(VPanic::Assert); }
+//!  R7  <debug builder>.finish()     ->  { let r = ..finish(); if payload_panicked() { return Err(VPanic::User) } r }
+//!      (inside the twins of `impl Debug for Mutex/RwLock`: the protected value's own Debug impl may panic)
 //!  R6  fn .. -> T { .. return e; .. tail }  ->  fn .. -> VR<T> { .. return Ok(e); .. Ok(tail) }
 //!
 //! Dropped by the dialect (declared): `Drop` impls stay infallible; drop glue of frames between a panic
@@ -37,6 +39,7 @@ use syn::visit_mut::{self, VisitMut};
 use syn::*;
 
 const TWIN_METHODS: &[&str] = &["raw_write", "raw_try_write", "raw_unlock_write", "raw_read", "raw_try_read", "raw_unlock_read"];
+const NOKEY: &[&str] = &["try_lock_no_key", "try_read_no_key", "try_write_no_key"];
 const LOCKAPI: &[&str] = &["lock", "try_lock", "unlock", "lock_shared", "try_lock_shared", "unlock_shared", "lock_exclusive", "try_lock_exclusive", "unlock_exclusive"];
 const UTILS_FNS: &[&str] = &[
     "ordered_write", "ordered_read", "ordered_try_write", "ordered_try_read",
@@ -53,17 +56,19 @@ struct FileSpec {
     inherent: &'static [&'static str],
     /// free functions to twin
     free: &'static [&'static str],
+    /// twin `impl Debug for <debug_of>`'s `fmt` as an inherent `d_fmt` (a panic in the payload's own Debug is R7)
+    debug_of: Option<&'static str>,
 }
 
 const FILES: &[FileSpec] = &[
-    FileSpec { path: "mutex/mutex.rs", rawlock_impl_for: Some("Mutex"), inherent_of: Some("Mutex"), inherent: &["scoped_lock", "scoped_try_lock"], free: &[] },
-    FileSpec { path: "rwlock/rwlock.rs", rawlock_impl_for: Some("RwLock"), inherent_of: Some("RwLock"), inherent: &["scoped_read", "scoped_try_read", "scoped_write", "scoped_try_write"], free: &[] },
-    FileSpec { path: "collection/utils.rs", rawlock_impl_for: None, inherent_of: None, inherent: &[], free: UTILS_FNS },
-    FileSpec { path: "collection/boxed.rs", rawlock_impl_for: Some("BoxedLockCollection"), inherent_of: None, inherent: &[], free: &[] },
-    FileSpec { path: "collection/ref.rs", rawlock_impl_for: Some("RefLockCollection"), inherent_of: None, inherent: &[], free: &[] },
-    FileSpec { path: "collection/owned.rs", rawlock_impl_for: Some("OwnedLockCollection"), inherent_of: None, inherent: &[], free: &[] },
-    FileSpec { path: "collection/retry.rs", rawlock_impl_for: Some("RetryingLockCollection"), inherent_of: None, inherent: &[], free: &[] },
-    FileSpec { path: "poisonable/poisonable.rs", rawlock_impl_for: Some("Poisonable"), inherent_of: Some("Poisonable"), inherent: &["scoped_lock", "scoped_try_lock", "scoped_read", "scoped_try_read"], free: &[] },
+    FileSpec { path: "mutex/mutex.rs", rawlock_impl_for: Some("Mutex"), inherent_of: Some("Mutex"), inherent: &["scoped_lock", "scoped_try_lock", "try_lock_no_key"], free: &[], debug_of: Some("Mutex") },
+    FileSpec { path: "rwlock/rwlock.rs", rawlock_impl_for: Some("RwLock"), inherent_of: Some("RwLock"), inherent: &["scoped_read", "scoped_try_read", "scoped_write", "scoped_try_write", "try_read_no_key"], free: &[], debug_of: Some("RwLock") },
+    FileSpec { path: "collection/utils.rs", rawlock_impl_for: None, inherent_of: None, inherent: &[], free: UTILS_FNS , debug_of: None },
+    FileSpec { path: "collection/boxed.rs", rawlock_impl_for: Some("BoxedLockCollection"), inherent_of: None, inherent: &[], free: &[] , debug_of: None },
+    FileSpec { path: "collection/ref.rs", rawlock_impl_for: Some("RefLockCollection"), inherent_of: None, inherent: &[], free: &[] , debug_of: None },
+    FileSpec { path: "collection/owned.rs", rawlock_impl_for: Some("OwnedLockCollection"), inherent_of: None, inherent: &[], free: &[] , debug_of: None },
+    FileSpec { path: "collection/retry.rs", rawlock_impl_for: Some("RetryingLockCollection"), inherent_of: None, inherent: &[], free: &[] , debug_of: None },
+    FileSpec { path: "poisonable/poisonable.rs", rawlock_impl_for: Some("Poisonable"), inherent_of: Some("Poisonable"), inherent: &["scoped_lock", "scoped_try_lock", "scoped_read", "scoped_try_read"], free: &[], debug_of: None },
 ];
 
 fn die(msg: &str) -> ! {
@@ -98,6 +103,7 @@ struct Stats {
     r3: usize,
     r5: usize,
     r6_return: usize,
+    r7: usize,
 }
 
 struct Rw<'a> {
@@ -222,7 +228,14 @@ impl<'a> VisitMut for Rw<'a> {
             }
             Expr::MethodCall(mut mc) => {
                 let m = mc.method.to_string();
-                if TWIN_METHODS.contains(&m.as_str()) {
+                if m == "finish" && mc.args.is_empty() {
+                    // R7: the payload's own Debug impl runs inside this call and may panic
+                    visit_mut::visit_expr_method_call_mut(self, &mut mc);
+                    self.stats.r7 += 1;
+                    self.tries += 1;
+                    let inner = Expr::MethodCall(mc);
+                    parse_quote!({ let __r = #inner; if payload_panicked() { return Err(VPanic::User); } __r })
+                } else if TWIN_METHODS.contains(&m.as_str()) || NOKEY.contains(&m.as_str()) {
                     self.visit_expr_mut(&mut mc.receiver);
                     mc.method = d_ident(&m);
                     self.stats.r2_method += 1;
@@ -421,6 +434,25 @@ fn main() {
                         }
                         twin.items = methods;
                         out_items.push(twin.to_token_stream());
+                    } else if imp.trait_.as_ref().map(|(_, p, _)| last_seg(p) == "Debug").unwrap_or(false) && spec.debug_of == Some(ty.as_str()) {
+                        let mut twin = imp.clone();
+                        twin.attrs.retain(keep_attr);
+                        twin.trait_ = None;
+                        twin.unsafety = None;
+                        let mut methods = vec![];
+                        for ii in twin.items.drain(..) {
+                            if let ImplItem::Fn(mut f) = ii {
+                                if f.sig.ident == "fmt" {
+                                    f.attrs.retain(keep_attr);
+                                    f.vis = parse_quote!(pub);
+                                    twin_sig_and_body(&mut f.sig, &mut f.block, &mut stats);
+                                    found.push(format!("<{} as Debug>::fmt", ty));
+                                    methods.push(ImplItem::Fn(f));
+                                }
+                            }
+                        }
+                        twin.items = methods;
+                        out_items.push(twin.to_token_stream());
                     } else if imp.trait_.is_none() && spec.inherent_of == Some(ty.as_str()) {
                         let mut methods = vec![];
                         for ii in &imp.items {
@@ -457,7 +489,7 @@ fn main() {
             }
         }
         // every requested item must have been found
-        let want = spec.free.len() + spec.inherent.len() + if spec.rawlock_impl_for.is_some() { TWIN_METHODS.len() } else { 0 };
+        let want = spec.free.len() + spec.inherent.len() + if spec.rawlock_impl_for.is_some() { TWIN_METHODS.len() } else { 0 } + if spec.debug_of.is_some() { 1 } else { 0 };
         if found.len() != want {
             die(&format!("lost anchor in {}: found {:?}, wanted {} items", spec.path, found, want));
         }
@@ -497,7 +529,7 @@ fn main() {
 
     let files: Vec<String> = report.iter().map(|(k, v)| format!("\"{}\": [{}]", k, v.iter().map(|s| format!("\"{}\"", s)).collect::<Vec<_>>().join(", "))).collect();
     println!(
-        "{{\"twins\": {}, \"rules\": {{\"R1_handle_unwind\": {}, \"R2_rawlock_methods\": {}, \"R2_lockapi_on_raw\": {}, \"R2_twin_fns\": {}, \"R2_user_closure_calls\": {}, \"R3_for_each\": {}, \"R5_assert\": {}, \"R6_returns\": {}}}, \"supertrait_patch\": 1, \"files\": {{{}}}}}",
-        total_twins, stats.r1, stats.r2_method, stats.r2_lockapi, stats.r2_fn, stats.r2_closure, stats.r3, stats.r5, stats.r6_return, files.join(", ")
+        "{{\"twins\": {}, \"rules\": {{\"R1_handle_unwind\": {}, \"R2_rawlock_methods\": {}, \"R2_lockapi_on_raw\": {}, \"R2_twin_fns\": {}, \"R2_user_closure_calls\": {}, \"R3_for_each\": {}, \"R5_assert\": {}, \"R6_returns\": {}, \"R7_payload_debug\": {}}}, \"supertrait_patch\": 1, \"files\": {{{}}}}}",
+        total_twins, stats.r1, stats.r2_method, stats.r2_lockapi, stats.r2_fn, stats.r2_closure, stats.r3, stats.r5, stats.r6_return, stats.r7, files.join(", ")
     );
 }
